@@ -36,7 +36,8 @@ def self_validate(pid: str) -> int:
     t0 = time.time()
     missed = [f"control: {m}" for m in run_controls(with_mutants=False)]
     muts = [dict(m, checks=[pid], expect={pid: m.get("expect", {}).get(pid, "")}) for m in MUTANTS + load_seeded() if pid in m["checks"]]
-    sil = [dict(m, checks=[pid]) for m in SILENT if pid in m["checks"]]
+    from .selftest import load_refactors
+    sil = [dict(m, checks=[pid]) for m in SILENT + load_refactors() if pid in m["checks"]]
     env_jobs = int(os.environ.get("KVERIF_JOBS", "4"))
     os.environ["KVERIF_NO_SELFVALIDATION"] = "1"
     with ThreadPoolExecutor(env_jobs) as ex:
